@@ -1,6 +1,9 @@
 package main
 
-import "time"
+import (
+	"os"
+	"time"
+)
 
 func init() { checks["C07"] = checkC07 }
 
@@ -15,6 +18,10 @@ func checkC07(c *Check) {
 		n = 4
 	}
 	to := 40 * time.Minute
+	if os.Getenv("VERIF_C07_ONLY") != "" {
+		checkC07Entries(c)
+		return
+	}
 	runCBEDecGen(c, decGenCfg{Label: "cbe/header", Prefix: "<<>>", TypeAlpha: "{0, 67, 99, 128, 129, 130, 255}", DataAlpha: "{0, 1, 2, 127, 128, 129, 255}", MaxLen: 4, WithRules: true, Timeout: to}, nil)
 	runCBEDecGen(c, decGenCfg{Label: "cbe/all-type-codes", Prefix: "<<129, 0>>", TypeAlpha: "0..255", DataAlpha: "{0, 1, 255}", MaxLen: 2, WithRules: true, Timeout: to}, nil)
 	runCBEDecGen(c, decGenCfg{Label: "cbe/shapes", Prefix: "<<129, 0>>", TypeAlpha: cbeTypeRep, DataAlpha: cbeDataRep, MaxLen: n, WithRules: true, Timeout: to}, nil)
